@@ -680,6 +680,31 @@ let lock_check () =
      done
    with End_of_file -> ())
 
+
+(* ---- C16: timeout / delay definitions on a gap script ---- *)
+let time_oracle () =
+  (try
+     while true do
+       let line = input_line stdin in
+       if String.length line > 0 && line.[0] = '(' then begin
+         match parse_sx line with
+         | [L [A kind; d; L (A "items" :: is); en]] ->
+             let items = List.map (function L [g; v; b] -> { x_gap = atom_nat g; x_val = atom_nat v; x_busy = atom_nat b } | x -> failwith ("bad item " ^ sx_to_string x)) is in
+             let i n = string_of_int (int_of_nat n) in
+             if kind = "timeout" then begin
+               let en = (match en with L [A "end"; g; e] -> Some (atom_nat g, int_of_nat (atom_nat e) = 1) | _ -> None) in
+               let log = spec_timeout (atom_nat d) (nat_of_int 0) false items en in
+               Printf.printf "(log %s)\n" (String.concat " " (List.map (fun (t, e) ->
+                   match e with XItem v -> "(" ^ i t ^ " n " ^ i v ^ ")" | XTimeout -> "(" ^ i t ^ " timeout)" | XDone true -> "(" ^ i t ^ " e)" | XDone false -> "(" ^ i t ^ " c)") log))
+             end else begin
+               let log = spec_delay (atom_nat d) (nat_of_int 0) items in
+               Printf.printf "(log %s)\n" (String.concat " " (List.map (fun ((c, t), v) -> "(" ^ i c ^ " " ^ i t ^ " " ^ i v ^ ")") log))
+             end
+         | _ -> print_endline "(error \"bad time-oracle input\")"
+       end
+     done
+   with End_of_file -> ())
+
 let () =
   match Array.to_list Sys.argv with
   | _ :: "run-seq" :: fuel :: _ -> run_seq (int_of_string fuel)
@@ -692,5 +717,6 @@ let () =
   | _ :: "comb-explore" :: _ -> comb_explore ()
   | _ :: "oo-explore" :: _ -> oo_explore ()
   | _ :: "lock-check" :: _ -> lock_check ()
+  | _ :: "time-oracle" :: _ -> time_oracle ()
   | _ :: "subj-oracle" :: _ -> subj_oracle_cmd ()
   | _ -> prerr_endline "usage: driver run-seq FUEL < scenarios"; exit 2
